@@ -597,3 +597,199 @@ def replay(ctx, d):
     bad = (raw == 0 and not any(sts)) or any(hit[0]['seq'] not in l['api'] for l in r.logs)
     print('%s returned %d statuses %s on rank %d -> %s' % (name, raw, sts, d['rank'], 'VIOLATION reproduced' if bad else 'error reported'))
     return 1 if bad else 0
+
+
+# ------------------------------------------------------------------ regeneration of the per-site lemmas
+PART2 = '(* ==== PART 2: per-site and per-chain lemmas (generated by `python3 -m checks.C11 --regen`) ==== *)'
+
+
+def _ident(site_id):
+    f, fn, callee = site_id.split(':')
+    return re.sub(r'[^A-Za-z0-9_]', '_', '%s__%s' % (fn, callee.replace('#', '_')))
+
+
+def regen(lib=None):
+    """Rewrite part 2 of coq/Proofs_Fault.v, coq/props/C11.spec and coq/Properties_C11.v from the verdicts the
+    model gives on the CURRENT sources.  To be run by hand after /repo changed the behaviour of a site
+    (e.g. a `fix:` commit); never run by the check itself."""
+    lib = lib or C.libdir()
+    wd = C.scratch('c11g.')
+    sj = os.path.join(wd, 'sites.json')
+    rc, out = C.sh([os.sys.executable, os.path.join(C.VERIF, 'tools', 'tr_iosites.py'), lib,
+                    os.path.join(C.COQ, 'Gen_iosites.v'), '--json', sj], timeout=600)
+    print(out.strip())
+    if rc != 0:
+        raise SystemExit('translator failed')
+    tj = json.load(open(sj))
+    pf = os.path.join(C.COQ, 'Proofs_Fault.v')
+    txt = open(pf).read()
+    part1 = txt[:txt.index(PART2)]
+    open(pf, 'w').write(part1 + PART2 + '\n')
+    for f in ('Fault.v', 'Gen_iosites.v', 'Proofs_Fault.v'):
+        rc, out = C.sh(['coqc', '-Q', '.', 'Pnc', '-w', '-all', f], cwd=C.COQ, timeout=1500)
+        if rc != 0:
+            raise SystemExit('coqc %s failed:\n%s' % (f, out[-3000:]))
+    io = [s for s in tj['sites'] if s['io']]
+    links = [s for s in tj['sites'] if not s['io']]
+    # ---- ask the model
+    q = ['From Pnc Require Import Proofs_Fault.', 'Set Printing Width 1000000.',
+         'Definition cls (s : site) := String.concat "," (map class_name (filter (fun c => negb (io_propagates s c)) all_classes)).',
+         'Eval vm_compute in ("BAD " ++ String.concat "," (map s_id (filter (fun l => negb (link_propagates l)) link_sites))).']
+    for i, s in enumerate(io):
+        q.append('Eval vm_compute in ("SITE %d " ++ cls (site_of "%s" io_sites)).' % (i, s['id']))
+    q.append('Eval vm_compute in ("CHAINS " ++ String.concat "," (map (fun x => fst x ++ "=" ++ (if chain_in_graph link_sites (snd x) then "ok" else "MISSING")) chains)).')
+    open(os.path.join(wd, 'Q.v'), 'w').write('\n'.join(q) + '\n')
+    rc, out = C.sh(['coqc', '-Q', C.COQ, 'Pnc', '-w', '-all', 'Q.v'], cwd=wd, timeout=1500)
+    if rc != 0:
+        raise SystemExit('query failed:\n' + out[-3000:])
+    out1 = out.replace('\n', ' ')
+    bad = [x for x in re.search(r'"BAD ([^"]*)"', out1).group(1).split(',') if x]
+    dropped = {}
+    for m in re.finditer(r'"SITE (\d+) ([^"]*)"', out1):
+        dropped[io[int(m.group(1))]['id']] = [x for x in m.group(2).split(',') if x]
+    chains = [x.split('=') for x in re.search(r'"CHAINS ([^"]*)"', out1).group(1).split(',')]
+    cur_bad = re.findall(r'"([^"]+)"', re.search(r'Definition bad_link_ids : list string :=\s*\[(.*?)\]\.', part1, re.S).group(1))
+    if sorted(bad) != sorted(cur_bad):
+        print('NOTE: bad_link_ids in part 1 of Proofs_Fault.v is %s but the model now gives %s: edit part 1' % (cur_bad, bad))
+
+    def ctor(n):
+        return 'E_ANY_OTHER_CLASS' if n.startswith('(') else 'E_' + n[len('MPI_ERR_'):]
+    # ---- call graph for explicit paths
+    callers = {}
+    for l in links:
+        callers.setdefault(l['callee'], []).append(l)
+
+    def path_to(f, target):
+        """link ids from function f upward until reaching function `target`"""
+        from collections import deque
+        prev = {f: None}
+        dq = deque([f])
+        while dq:
+            g = dq.popleft()
+            if g == target:
+                break
+            for l in callers.get(g, []):
+                if l['func'] not in prev:
+                    prev[l['func']] = (g, l['id'])
+                    dq.append(l['func'])
+        if target not in prev:
+            return None
+        p = []
+        g = target
+        while prev[g] is not None:
+            g0, lid = prev[g]
+            p.append(lid)
+            g = g0
+        return list(reversed(p))
+
+    def reach_up(f):
+        seen = {f}
+        todo = [f]
+        while todo:
+            g = todo.pop()
+            for l in callers.get(g, []):
+                if l['func'] not in seen:
+                    seen.add(l['func']); todo.append(l['func'])
+        return seen
+    byid = {l['id']: l for l in links}
+    o = [PART2, '']
+    spec = ['# C11 I/O failures are never silently dropped.  Model: coq/Fault.v (policy language, abstract interpreter,',
+            '# mpi2nc, propagation table) instantiated with coq/Gen_iosites.v (tools/tr_iosites.py, regenerated from the',
+            '# sources as built on every run).  no_silent_drop s: for every MPI error class, the function containing I/O',
+            '# site s returns an error and so does every function on every static call path above it (up to ncmpi_*).',
+            '# *_refuted: the present code loses the error (witness class or losing link site); *_drops: exactly which',
+            '# classes are lost in the function; *_partial: what is propagated nevertheless.',
+            'import Proofs_Fault',
+            'thm C11_all_classes_enumerated all_classes_complete',
+            'thm C11_mpi2nc_matches_source mpi2nc_matches_source',
+            'thm C11_mpi2nc_table_classes_known mpi2nc_table_classes_known',
+            'thm C11_mpi2nc_default_is_EFILE mpi2nc_default_is_EFILE',
+            'thm C11_mpi2nc_never_noerr mpi2nc_never_noerr',
+            'thm C11_nc_codes_negative nc_codes_negative',
+            'thm C11_translator_census_complete translator_census_complete',
+            'thm C11_loop_exec_covers_all_iterations loop_exec_covers_all_iterations',
+            'thm C11_loop_exec_fails_closed loop_exec_fails_closed',
+            'thm C11_verdict_is_specification propagates_spec',
+            'thm C11_call_paths_stay_in_closed_set up_closed_sound',
+            'thm C11_links_propagate_except_bad links_propagate_except_bad',
+            'thm C11_bad_links_drop bad_links_drop',
+            'thm C11_hypothesis_satisfiable mpi2nc_hypothesis_satisfiable',
+            'thm C11_on_path_inhabited on_path_inhabited']
+    verdict = {}
+    for s in io:
+        sid = s['id']
+        nm = _ident(sid)
+        S = '(site_of "%s" io_sites)' % sid
+        D = [ctor(x) for x in dropped.get(sid, [])]
+        up = reach_up(s['func'])
+        badup = [b for b in bad if byid[b]['callee'] in up]
+        verdict[sid] = dict(dropped=dropped.get(sid, []), bad_links_above=badup)
+        if not D and not badup:
+            o.append('Lemma nsd_%s : no_silent_drop link_sites %s.' % (nm, S))
+            o.append('Proof. apply (no_silent_drop_intro _ (reach_up link_sites (s_func %s))); vm_compute; reflexivity. Qed.\n' % S)
+            spec.append('thm no_silent_drop_%s nsd_%s' % (nm, nm))
+            continue
+        o.append('Lemma nsd_%s_refuted : ~ no_silent_drop link_sites %s.' % (nm, S))
+        if D:
+            w = 'E_NO_SPACE' if 'E_NO_SPACE' in D else D[0]
+            o.append('Proof. apply (refute_by_class %s %s). vm_compute. reflexivity. Qed.\n' % (S, w))
+        else:
+            b = badup[0]
+            p = path_to(s['func'], byid[b]['callee'])
+            o.append('Proof.\n  apply (refute_by_link %s (sites_of [%s] link_sites) (site_of "%s" link_sites)).' % (
+                S, '; '.join('"%s"' % x for x in p), b))
+            o.append('  - apply site_of_In; vm_compute; reflexivity.\n  - vm_compute; reflexivity.\n  - vm_compute; reflexivity.')
+            o.append('  - apply sites_of_In; vm_compute; reflexivity.\nQed.\n')
+        spec.append('thm no_silent_drop_%s_refuted nsd_%s_refuted' % (nm, nm))
+        if D:
+            o.append('Lemma nsd_%s_drops : drops_classes %s [%s].' % (nm, S, '; '.join(D)))
+            o.append('Proof. apply drops_classes_intro; vm_compute; reflexivity. Qed.\n')
+            spec.append('thm no_silent_drop_%s_drops nsd_%s_drops' % (nm, nm))
+        if badup:
+            o.append('Lemma nsd_%s_partial : no_silent_drop_except link_sites %s [%s] bad_link_ids.' % (nm, S, '; '.join(D)))
+            o.append('Proof. apply no_silent_drop_except_intro; vm_compute; reflexivity. Qed.\n')
+        else:
+            o.append('Lemma nsd_%s_partial : no_silent_drop_except link_sites %s [%s] [].' % (nm, S, '; '.join(D)))
+            o.append('Proof. apply (no_silent_drop_except_nolinks_intro _ _ (reach_up link_sites (s_func %s))); vm_compute; reflexivity. Qed.\n' % S)
+        spec.append('thm no_silent_drop_%s_partial nsd_%s_partial' % (nm, nm))
+    # ---- chains
+    ctext = re.search(r'Definition chains : list \(string \* list string\) :=\s*\[(.*?)\]\.\s*\n\s*\(\* the link sites of one hop',
+                      open(os.path.join(C.COQ, 'Fault.v')).read(), re.S).group(1)
+    cdefs = [(m.group(1), re.findall(r'"([^"]+)"', m.group(2))) for m in re.finditer(r'\("([^"]+)",\s*\[([^\]]*)\]\)', ctext)]
+    for name, fs in cdefs:
+        nm = re.sub(r'[^A-Za-z0-9_]+', '_', name).rstrip('_')
+        hops = list(zip(fs, fs[1:]))
+        badhop = None
+        for k, (a, b) in enumerate(hops):
+            for l in links:
+                if l['func'] == a and l['callee'] == b and l['id'] in bad:
+                    badhop = (k, a, b)
+        Cn = '(chain_of "%s")' % name
+        if badhop is None:
+            o.append('Lemma chain_%s : chain_reaches_api link_sites %s.' % (nm, Cn))
+            o.append('Proof. apply chain_reaches_api_intro; [vm_compute; reflexivity | apply forallb_hops_bad; vm_compute; reflexivity]. Qed.\n')
+            spec.append('thm chain_%s chain_%s' % (nm, nm))
+        else:
+            k, a, b = badhop
+            o.append('Lemma chain_%s_refuted : ~ chain_reaches_api link_sites %s.' % (nm, Cn))
+            o.append('Proof. apply (chain_refute %s %d "%s" "%s"); vm_compute; reflexivity. Qed.\n' % (Cn, k, a, b))
+            o.append('Lemma chain_%s_partial : chain_reaches_api_except link_sites %s bad_link_ids.' % (nm, Cn))
+            o.append('Proof. apply chain_reaches_api_except_intro; vm_compute; reflexivity. Qed.\n')
+            spec.append('thm chain_%s_refuted chain_%s_refuted' % (nm, nm))
+            spec.append('thm chain_%s_partial chain_%s_partial' % (nm, nm))
+    open(pf, 'w').write(part1 + '\n'.join(o) + '\n')
+    open(os.path.join(C.COQ, 'props', 'C11.spec'), 'w').write('\n'.join(spec) + '\n')
+    rc, out = C.sh(['coqc', '-Q', '.', 'Pnc', '-w', '-all', 'Proofs_Fault.v'], cwd=C.COQ, timeout=3000)
+    if rc != 0:
+        raise SystemExit('coqc Proofs_Fault.v failed:\n' + out[-3000:])
+    rc, out = C.sh([os.sys.executable, os.path.join(C.VERIF, 'tools', 'mkprops.py'), 'C11', os.path.join(C.COQ, 'props', 'C11.spec')],
+                   cwd=C.VERIF, timeout=3000)
+    print(out[-500:])
+    rc, out = C.sh(['coqc', '-Q', '.', 'Pnc', '-w', '-all', 'Properties_C11.v'], cwd=C.COQ, timeout=3000)
+    print('Properties_C11.v:', 'ok' if rc == 0 else out[-2000:])
+    print(json.dumps(verdict, indent=1))
+
+
+if __name__ == '__main__':
+    if '--regen' in os.sys.argv:
+        regen(os.sys.argv[os.sys.argv.index('--lib') + 1] if '--lib' in os.sys.argv else None)
